@@ -320,6 +320,22 @@ def _check_records(ctx: Ctx, m: pf.Module, current: int) -> None:
         rspec = [a.arg for a in r.args.args][1]
         # writer side: the non-trivial definition of the variable (list / list comprehension)
         cands = [d for d in defs.get(tag, []) if _find_record_list(d)[0] is not None]
+        if not cands:
+            # recognised lossy shapes: records funnelled through a dict / set keyed by some of their fields, or a filtered comprehension
+            lossy = None
+            for nme, dl in list(defs.items()) + [(k_, [v_]) for k_, v_ in {n.targets[0].id: n.value for n in ast.walk(w) if isinstance(n, ast.Assign) and len(n.targets) == 1
+                                                                              and isinstance(n.targets[0], ast.Name)}.items()]:
+                for d in dl:
+                    if isinstance(d, ast.DictComp) and isinstance(d.value, ast.List) and len(d.generators) == 1:
+                        lossy = (d, f'a dict keyed by `{short(pf.nsrc(d.key), 50)}`')
+                    if isinstance(d, ast.ListComp) and isinstance(d.elt, ast.List) and any(g.ifs for g in d.generators):
+                        lossy = (d, f'a comprehension filtered by `{short(pf.nsrc(d.generators[0].ifs[0]), 50)}`')
+                    if isinstance(d, ast.Call) and pf.dotted(d.func) in ('set', 'frozenset', 'dict.fromkeys'):
+                        lossy = (d, f'`{short(pf.nsrc(d), 50)}`')
+            if lossy is not None and any(isinstance(d, ast.Call) and ('values' in pf.nsrc(d) or 'list(' in pf.nsrc(d) or 'sorted(' in pf.nsrc(d)) for d in defs.get(tag, [])):
+                ctx.bad('R1', f'{m.rel}::{CLS}.db_spec::{tag} records', f'the stored `{tag}` records are built through {lossy[1]}: two entries of the job spec that agree on that key '
+                        f'collapse into one stored record (and order is no longer the spec\'s), so {rname} cannot yield back the same {tag}', m.path, lossy[0].lineno)
+                continue
         ctx.need(cands, f'db_spec: no record list is ever assigned to `{tag}`')
         wl, wvar = _find_record_list(cands[0])
         # source variable(s) the record is built from
